@@ -400,6 +400,29 @@ void bounded_sink_case(std::size_t cap, bool big)
   }
   if (reported < 4 && cap >= (reported + 1) * 4) fail("io::write|failure-although-room", ctx + ": write #" + std::to_string(reported) + " failed although the sink had room");
 }
+// io::read from a stream that is in a failed state although bytes are available (failbit after an
+// earlier failed extraction, badbit): "return the complete result or report failure" - a failed
+// stream has delivered nothing, so nothing is what comes back (never a value made of stale bytes)
+void failed_stream_read_case(std::size_t state, bool big, std::size_t width)
+{
+  std::endian const order = big ? std::endian::big : std::endian::little;
+  std::string const bytes("\x01\x02\x03\x04\x05\x06\x07\x08\x09", 9);
+  std::ios_base::iostate const st = state == 0 ? std::ios_base::failbit : state == 1 ? std::ios_base::badbit : (std::ios_base::failbit | std::ios_base::badbit);
+  count(true);
+  std::istringstream is(bytes);
+  is.setstate(st);
+  bool got = false;
+  if (width == 0) got = fcppt::io::read<std::uint8_t>(is, order).has_value();
+  else if (width == 1) got = fcppt::io::read<std::uint16_t>(is, order).has_value();
+  else if (width == 2) got = fcppt::io::read<std::uint32_t>(is, order).has_value();
+  else got = fcppt::io::read<std::uint64_t>(is, order).has_value();
+  if (got) fail("io::read|value-from-a-failed-stream", std::string("io::read of a ") + std::to_string(8 << width) + "-bit value returned a value although the stream had " + (state == 0 ? "failbit" : state == 1 ? "badbit" : "failbit|badbit") + " set before the call");
+}
+Reg const r_failed_read{"io_read_failed_stream", Kind::exhaustive, "every case",
+                        [] { for (i64 s = 0; s < 3; ++s) for (i64 b = 0; b < 2; ++b) for (i64 w = 0; w < 4; ++w) { cur3(s, b, w); failed_stream_read_case(static_cast<std::size_t>(s), b != 0, static_cast<std::size_t>(w)); } },
+                        [](Ints const &c) { failed_stream_read_case(static_cast<std::size_t>(static_cast<u64>(c.at(0)) % 3), c.at(1) % 2 != 0, static_cast<std::size_t>(static_cast<u64>(c.at(2)) % 4)); },
+                        [](Ints const &c) { static char const *const st[] = {"failbit", "badbit", "failbit|badbit"}; return "io::read of a " + std::to_string(8 << (static_cast<u64>(c.at(2)) % 4)) + "-bit value from a stream of 9 bytes with " + st[static_cast<u64>(c.at(0)) % 3] + " set"; }};
+
 Reg const r_bounded{"io_write_bounded_sink", Kind::exhaustive, "the sink cannot take all four values, or ends inside a value",
                     [] { for (i64 cap = 0; cap <= 17; ++cap) for (i64 b = 0; b < 2; ++b) { cur2(cap, b); bounded_sink_case(static_cast<std::size_t>(cap), b != 0); } },
                     [](Ints const &c) { bounded_sink_case(static_cast<std::size_t>(static_cast<u64>(c.at(0)) % 18), c.at(1) % 2 != 0); },
